@@ -10,7 +10,8 @@ into generic data with integral numbers as int64 — the harness's `viaJSON`), w
 the documentation of encoding/json: it is the *reference* of property C18, modelled, not verified; both
 are tied to the real code by the `rfl` domain (`rfl.conv`, `rfl.json`).
 
-Not modelled: custom marshalers / UnstructuredConverter, omitzero, uint64, arrays, non-string map keys,
+Not modelled: custom marshalers / UnstructuredConverter, omitzero, uint64 (a `uint` is 64 bits wide and
+is read as `int64(uint)`, wrapping from 2^63 on), arrays, non-string map keys,
 cyclic data. A `float32` carries its exact value and the float64 nearest to its shortest decimal
 (strconv's `FormatFloat(…, 32)`, an external function: the harness supplies it).
 -/
@@ -136,7 +137,11 @@ def reflectV : GoType → GoVal → Option Value
   | _, .nil => some .null
   | .bool, .bool b => some (.bool b)
   | .int, .int i => some (.int i)
-  | .uint, .int i => if i < 0 then none else some (.int i)
+  -- `AsInt` of an unsigned kind is `int64(r.Value.Uint())` (value/valuereflect.go:254-256): a two's-complement
+  -- reinterpretation, so a `uint` ≥ 2^63 comes out negative; outside [0, 2^64) the datum is not a `uint`
+  | .uint, .int i =>
+    if i < 0 || (2 ^ 64 : Int) ≤ i then none
+    else some (.int (if i < (2 ^ 63 : Int) then i else i - (2 ^ 64 : Int)))
   | .float64, .float u z => some (.float u z)
   | .float32, .float32 _ z s => some (.float s z)
   | .string, .str s => some (.str s)
